@@ -481,7 +481,8 @@ PROBES = {
     "F31": P([["join", {"id": "Q", "src": "t", "steps": [["alias", False]]},
                [["fn", "equal", [col("id"), ["col", "Q@1", "id"]]], ["fn", "equal", [col("id"), ["col", "Q@1", "id"]]]],
                "inner", None]]),
-    "F45": {**P([["join", {"id": "Q", "src": "t", "steps": [["alias", False]]},
+    "F45": {**P([["filter", [["fn", "equal", [col("id"), ["lit", 1]]]]],
+                 ["join", {"id": "Q", "src": "t", "steps": [["alias", False]]},
                   [["fn", "equal", [col("g"), ["col", "Q@1", "g"]]]], "left", None],
                  ["mutate", [["z1", ["fn", "mean", [["fn", "horizontal_min", [col("a"), ["lit", 1], ["lit", -1]]]],
                                      {"partition_by": [col("s")]}]]]]]), "only": ["polars"]},
